@@ -144,10 +144,18 @@ theorem subplane_guards (lo hi upper : Int) :
 theorem trace_guards (g : Geo) (index a b : Int) :
     (Gen.trace_guard_window b a g.n2 ↔ Reader.windowOk g a b = true)
     ∧ (Gen.trace_guard_2d index g.n1 ↔ (decide (0 ≤ index) && decide (index < (g.n1 : Int))) = true)
-    ∧ (Gen.trace_guard_3d index g.n0 g.n1 ↔ (decide (0 ≤ index) && decide (index < (g.n0 : Int) * (g.n1 : Int))) = true) := by
-  unfold Gen.trace_guard_window Gen.trace_guard_2d Gen.trace_guard_3d Reader.windowOk
+    ∧ (Gen.trace_guard_3d index g.n0 g.n1 ↔ (decide (0 ≤ index) && decide (index < (g.n0 : Int) * (g.n1 : Int))) = true)
+    ∧ (∀ tracecount : Nat, Gen.trace_guard_irregular index tracecount ↔ ∃ i : Nat, index = i ∧ i < tracecount) := by
+  unfold Gen.trace_guard_window Gen.trace_guard_2d Gen.trace_guard_3d Gen.trace_guard_irregular Reader.windowOk
   simp only [Bool.and_eq_true, decide_eq_true_eq]
-  refine ⟨?_, ?_, ?_⟩ <;> constructor <;> intro h <;> omega
+  refine ⟨?_, ?_, ?_, ?_⟩
+  · constructor <;> intro h <;> omega
+  · constructor <;> intro h <;> omega
+  · constructor <;> intro h <;> omega
+  · intro tc
+    constructor
+    · intro h; exact ⟨index.toNat, by omega, by omega⟩
+    · rintro ⟨i, rfl, hi⟩; omega
 
 /-! ### read.py: set selection, indices, crops (the model's method, restated with the generated expressions) -/
 
